@@ -570,6 +570,55 @@ func compareC04(b *Behaviour, w *World, st *Step, n int, inst *sut.Instance, sca
 			}
 		}
 	}
+	// restoring a whole directory fetches several positions through ONE reader
+	for _, dp := range view.SortedPaths() {
+		if view[dp].Kind != "dir" || dp == "/" {
+			continue
+		}
+		nfiles := 0
+		for q, e := range view {
+			if e.Kind == "file" && strings.HasPrefix(q, dp+"/") {
+				nfiles++
+			}
+		}
+		if nfiles < 2 {
+			continue
+		}
+		res.Checks++
+		got := map[string]*bytes.Buffer{}
+		var rerr error
+		ok, pan := sut.Watchdog(callTimeout, func() {
+			rerr = inst.ReadOps.Restore(
+				func(path string, mode fs.FileMode) (io.WriteCloser, error) {
+					b := &bytes.Buffer{}
+					got[filepath.ToSlash(path)] = b
+					return nopWriteCloser{b}, nil
+				},
+				func(path string, mode fs.FileMode) error { return nil },
+				dp, "/out", false)
+		})
+		if !ok || pan != nil {
+			add("C04", n, st.Call, "restoring directory %s did not return / panicked: %v", dp, pan)
+			continue
+		}
+		if rerr != nil {
+			add("C04", n, st.Call, "restoring directory %s (%d files) failed: %v", dp, nfiles, rerr)
+			continue
+		}
+		for q, e := range view {
+			if e.Kind != "file" || !strings.HasPrefix(q, dp+"/") || e.RdErr != "" {
+				continue
+			}
+			dst := filepath.ToSlash(filepath.Join("/out", strings.TrimPrefix(q, dp)))
+			b, ok := got[dst]
+			if !ok {
+				add("C04", n, st.Call, "restoring directory %s did not deliver %s (delivered %d files)", dp, q, len(got))
+			} else if !sameBytes(b.Bytes(), e.Data) {
+				add("C04", n, st.Call, "restoring directory %s delivered %s for %s, current content is %s", dp, describe(b.Bytes()), q, describe(e.Data))
+			}
+		}
+		break // one directory per step is enough
+	}
 	res.Checks++
 	if len(scan.Recs) > 0 {
 		last := scan.Recs[len(scan.Recs)-1].Off
